@@ -1,4 +1,5 @@
 import NfpmModel.Props.C11
+import NfpmModel.Generated.G13InPlace
 /-
   C12  Concurrent packaging is race-free and equals sequential packaging.
 
@@ -111,5 +112,9 @@ theorem interleaving_preserves_config (as bs cs : List Op) (hi : Interleave as b
     rcases interleave_mem hi o ho with h | h
     · exact ha o h
     · exact hb o h) s n
+
+/-- the translator regenerated, on this run and from the working tree, every table this property is tied through
+    (when an extraction fails the reviewed table stands in so that the model still compiles, and this stops checking) -/
+theorem translator_tables_regenerated : Generated.extracted_G13InPlace = true := by decide
 
 end Nfpm.Props.C12
